@@ -9,7 +9,10 @@ import (
 	"io"
 	"io/ioutil"
 	"math/rand"
+	"os"
+	"os/exec"
 	"path/filepath"
+	"sort"
 
 	"github.com/Eyevinn/mp4ff/bits"
 	"github.com/Eyevinn/mp4ff/mp4"
@@ -18,6 +21,7 @@ import (
 func init() {
 	register("c08-replay", c08Replay)
 	register("c08-drive", c08Drive)
+	register("c08-segmenter", c08Segmenter)
 }
 
 type c08Case struct {
@@ -457,4 +461,97 @@ func c08Big(rep *Report, c *c08Case, raw string) {
 		rep.Violation("big/header", fmt.Sprintf("lazy mdat encodes to %x (%v), the file has %x", w.Bytes(), err, hdr), cs)
 	}
 	rep.Count(raw, true, nil)
+}
+
+// c08Segmenter: the segmenter example on the progressive inputs of Segmenter.tla, with and without -lazy: every output
+// file of the lazy run is byte-identical to the file of the in-memory run (one file per track, and multiplexed).
+func c08Segmenter(args []string) error {
+	rep := newReport()
+	segBin := argValue(args, "-segmenter", "")
+	tmp, err := ioutil.TempDir("", "c08seg.")
+	if err != nil {
+		return err
+	}
+	defer os.RemoveAll(tmp)
+	idx := 0
+	compared := 0
+	err = readLines(argValue(args, "-in", "-"), func(line []byte) error {
+		var c segCase
+		if err := json.Unmarshal(line, &c); err != nil {
+			return err
+		}
+		idx++
+		if c.Mode != "prog" {
+			return nil
+		}
+		dir := filepath.Join(tmp, fmt.Sprint("c", idx))
+		_ = os.MkdirAll(dir, 0755)
+		defer os.RemoveAll(dir)
+		inPath := filepath.Join(dir, "in.mp4")
+		if err := ioutil.WriteFile(inPath, buildMultiProg(c.Tracks, idx%3 == 1, false, false, false), 0644); err != nil {
+			return err
+		}
+		kinds := make([]string, len(c.Tracks))
+		for t, tr := range c.Tracks {
+			kinds[t] = fmt.Sprintf("%s n=%d spc=%v", tr.Kind, len(tr.Durs), tr.Spc)
+		}
+		judged := false
+		for _, mux := range []bool{false, true} {
+			outs := map[bool]map[string][]byte{}
+			okBoth := true
+			for _, lazy := range []bool{false, true} {
+				a := []string{"-d", fmt.Sprint(c.D)}
+				if mux {
+					a = append(a, "-m")
+				}
+				if lazy {
+					a = append(a, "-lazy")
+				}
+				sub := filepath.Join(dir, fmt.Sprintf("m%v_l%v", mux, lazy))
+				_ = os.MkdirAll(sub, 0755)
+				cmd := exec.Command(segBin, append(a, inPath, "out")...)
+				cmd.Dir = sub
+				if err := cmd.Run(); err != nil {
+					okBoth = false
+					break
+				}
+				files, _ := filepath.Glob(filepath.Join(sub, "out*"))
+				m := map[string][]byte{}
+				for _, f := range files {
+					b, _ := ioutil.ReadFile(f)
+					m[filepath.Base(f)] = b
+				}
+				outs[lazy] = m
+			}
+			if !okBoth {
+				continue
+			}
+			judged = true
+			compared++
+			cs := J{"tool": "segmenter", "multiplexed": mux, "d": c.D, "tracks": kinds}
+			if len(outs[true]) != len(outs[false]) {
+				rep.Violation("segmenter/lazy-vs-memory/files", fmt.Sprintf("-lazy writes %d files, without it %d", len(outs[true]), len(outs[false])), cs)
+				continue
+			}
+			names := []string{}
+			for name := range outs[false] {
+				names = append(names, name)
+			}
+			sort.Strings(names)
+			for _, name := range names {
+				if !bytes.Equal(outs[false][name], outs[true][name]) {
+					rep.Violation("segmenter/lazy-vs-memory/bytes", fmt.Sprintf("%s written with -lazy differs from the file written from memory", name), cs)
+					break
+				}
+			}
+		}
+		rep.Count(string(line), judged, nil)
+		return nil
+	})
+	if err != nil {
+		return err
+	}
+	rep.Extra["compared"] = compared
+	rep.Done()
+	return nil
 }
